@@ -94,7 +94,14 @@ pub fn run_c08(seed: u64, n: usize, out: &mut Out) {
         };
         let mut b = Engine::new(!optimize);
         b.use_resources(resources.clone());
-        b.use_tags(&[*r.pick(&[&"t2", &"zz"])]);
+        // the destination engine keeps the tags it had before loading
+        let pre: Vec<&str> = match r.below(4) {
+            0 => vec!["t1"],
+            1 => vec!["t2"],
+            2 => vec!["zz"],
+            _ => vec!["t1", "t2"],
+        };
+        b.use_tags(&pre);
         if b.deserialize(&bytes).is_err() {
             out.fail("deserialize-of-own-serialization-failed", None, json!({"rules": all}));
             continue;
@@ -107,12 +114,16 @@ pub fn run_c08(seed: u64, n: usize, out: &mut Out) {
             out.case(&format!("hnew\t{}\t{}", optimize as u8, dumps.join("\t")), "ok", json!({"rules": net, "optimize": optimize}), false);
             out.case("hreload", "ok", json!({"op": "serialize -> deserialize into another engine"}), true);
         }
-        for _ in 0..3 {
-            // any tag set, applied to both engines
-            let tags: Vec<String> = (0..r.below(3)).map(|_| r.pick(&["t1", "t2"]).to_string()).collect();
+        for it in 0..4 {
+            // first the tags the destination had before loading (set on the original only), then any tag set applied to both
+            let tags: Vec<String> = if it == 0 { pre.iter().map(|s| s.to_string()).collect() } else { (0..r.below(3)).map(|_| r.pick(&["t1", "t2"]).to_string()).collect() };
             let tr: Vec<&str> = tags.iter().map(|s| s.as_str()).collect();
             a.use_tags(&tr);
-            b.use_tags(&tr);
+            if it != 0 {
+                b.use_tags(&tr);
+            } else {
+                out.bump("tags_kept_from_before_the_load");
+            }
             if !dumps.is_empty() {
                 let mut cur: Vec<String> = b.verif_blocker().tags_enabled().iter().map(|t| hex(t)).collect();
                 cur.sort();
@@ -133,6 +144,9 @@ pub fn run_c08(seed: u64, n: usize, out: &mut Out) {
                     u = au.clone();
                     s = asrc.clone();
                     t = aty.clone();
+                }
+                if it == 0 && k > 0 && net.iter().any(|l| l.ends_with("tag=t1")) {
+                    u = ["https://tracker.example.net/pixel.gif", "https://cdn.test/adframe/x"][k - 1].to_string();
                 }
                 if !u.is_ascii() {
                     continue;
@@ -301,6 +315,55 @@ pub fn run_c09(seed: u64, n: usize, out: &mut Out) {
                 _ => out.fail("serialize-failed", None, mdesc.clone()),
             }
         }
+        // engines with tags switched on: the buffer is a function of the rules and the tags now enabled, however they came to be
+        // enabled (tagged rules of different tags share their first token here, so a kept rule's bucket depends on which other
+        // tagged rules were counted when it was placed)
+        {
+            let w: &str = r.pick(&["shared", "common", "zone"]);
+            let mut tagged: Vec<String> = net.clone();
+            tagged.push(format!("-{}-alpha-$tag=t1", w));
+            tagged.push(format!("-{}-beta-$tag=t2", w));
+            tagged.push(format!("-{}-delta-$tag=t2", w));
+            if r.pct(50) {
+                tagged.push(format!("-{}-gamma-$tag=t3,script", w));
+                tagged.push(format!("-{}-alpha-second$tag=t1", w));
+            }
+            let (keep, dropt): (&str, &str) = if r.pct(70) { ("t1", "t2") } else { ("t2", "t1") };
+            let mk = || Engine::from_rules_parametrised(&tagged, Default::default(), debug, optimize);
+            let mut e_hist = mk();
+            match r.below(3) {
+                0 => e_hist.enable_tags(&[keep, dropt]),
+                1 => {
+                    e_hist.use_tags(&[dropt]);
+                    e_hist.enable_tags(&[keep]);
+                }
+                _ => e_hist.use_tags(&[dropt, keep, "t3"]),
+            }
+            e_hist.disable_tags(&[dropt, "t3"]);
+            let mut e_direct = mk();
+            e_direct.enable_tags(&[keep]);
+            let tdesc = json!({"rules": tagged, "optimize": optimize, "debug": debug, "kept_tag": keep, "tag_switched_on_and_off_again": dropt});
+            match (e_hist.serialize_raw(), e_direct.serialize_raw()) {
+                (Ok(x), Ok(y)) => {
+                    if x != y {
+                        out.fail("same-rules-same-tags-serialize-differently", None, tdesc.clone());
+                    }
+                    let mut e4 = Engine::new(true);
+                    e4.enable_tags(&[keep]);
+                    if e4.deserialize(&x).is_ok() {
+                        match e4.serialize_raw() {
+                            Ok(b4) if b4 == x => {}
+                            Ok(_) => out.fail("reserialization-after-reload-differs", None, tdesc.clone()),
+                            Err(_) => out.fail("reserialize-failed", None, tdesc.clone()),
+                        }
+                    } else {
+                        out.fail("deserialize-of-own-serialization-failed", None, tdesc.clone());
+                    }
+                    out.bump("tag_history_engines");
+                }
+                _ => out.fail("serialize-failed", None, tdesc.clone()),
+            }
+        }
         out.oracle_case(&format!("{}", desc), &json!({"rules": all.len(), "bytes": bytes.len(), "optimize": optimize}), bytes.len() > 200);
         out.bump("lists");
         out.add("serialized_bytes", bytes.len() as u64);
@@ -322,7 +385,7 @@ fn small_lists() -> Vec<Vec<String>> {
         vec!["||ads.example.com^".into(), "@@||ads.example.com/ok$script".into(), "/banner/*.gif$image,third-party".into()],
         vec!["a$script".into(), "/x^*y$tag=t1".into(), "||cdn.test^$csp=script-src 'none'".into(), "*$removeparam=utm".into(), "||r.test^$redirect=a.js".into()],
         vec!["example.com##.ad".into(), "example.com#@#.ad2".into(), "example.com##+js(f1, x)".into(), "##.generic".into(), "###id.compound".into(), "example.com##.s:style(color: red)".into()],
-        vec!["||h.test^$important,tag=t1".into(), "/re[0-9]+/$script".into(), "|https://$domain=a.com|~b.a.com".into(), "@@||x.test^$generichide".into()],
+        vec!["||h.test^$important,tag=t1".into(), "||tagged.host.test^$tag=t1".into(), "||tagged.path.test/some/path$tag=t1,script".into(), "/re[0-9]+/$script".into(), "|https://$domain=a.com|~b.a.com".into(), "@@||x.test^$generichide".into()],
         // fusable rules of one tag in one bucket (the optimiser runs over decoded rules when tags are applied)
         vec!["/ads/a$tag=t1".into(), "/ads/b$tag=t1".into(), "/ads/c$tag=t1".into(), "/ads/d$tag=t2".into(), "/ads/e$tag=t2".into(), "/ads/f".into(), "/ads/g".into()],
     ]
@@ -467,11 +530,14 @@ pub fn c10_child(seed: u64, n: usize, dir: &str, tier: &str) {
                 if cb.len() > len {
                     continue;
                 }
-                for at_end in [false, true] {
+                for place in 0..3 {
                     let mut v = good.clone();
-                    let pos = if at_end { start + len - cb.len() } else { start };
+                    let pos = match place { 0 => start, 1 => start + len - cb.len(), _ => start + (len - cb.len()) / 2 };
+                    if place == 2 && (len < cb.len() + 4 || !good[start..start + len].is_ascii()) {
+                        continue;
+                    }
                     v[pos..pos + cb.len()].copy_from_slice(cb);
-                    variants.push((format!("utf8 {}-byte char at {} of string at {}", cb.len(), if at_end { "end" } else { "start" }, i), v));
+                    variants.push((format!("utf8 {}-byte char at {} of string at {}", cb.len(), ["start", "end", "middle"][place], i), v));
                 }
             }
         }
